@@ -1,16 +1,14 @@
-(* RoundTrip.v — C02 (printer/parser round trip) and the C03 keyword sweep.
+(* RoundTrip.v — C02 (printer/parser round trip): the exclusion predicate
+   [excl_C02], the refutations of the round trip inside each excluded class,
+   concrete positive instances on the concrete library CL; and the C03 keyword
+   case-insensitivity sweep (for every GoLib satisfying the Laws).
 
-   Status: the exclusion predicate [excl_C02], the refutations of the round
-   trip inside each excluded class, concrete positive instances, the keyword
-   case-insensitivity sweep (for every GoLib satisfying the Laws) are proved
-   here.  The general theorem
-
-     Theorem C02 : forall L, Laws L -> forall p,
-       wf_path L p -> excl_C02 p = false -> parse L (print_path L p) = POk p.
-
-   is NOT proved (see the report); it is tested instead on every tree the
-   differential test produces (tools/parsevec: about 21,000 trees, the model's
-   own [parse (print p)] is compared with [p] whenever [excl_C02 p = false]). *)
+   The general theorem
+     C02 : forall L, Laws L -> forall p,
+       wf_path L p -> excl_C02 p = false -> parse L (print_path L p) = POk p
+   is proved in proofs/ParserMain.v from proofs/LexPrint.v (lexing the print gives
+   proofs/Tokens.tok_path) and proofs/ParsePrint.v (parsing tok_path gives p); the
+   property-level statements are in props/C02.v. *)
 From Coq Require Import Floats.SpecFloat.
 From SJ Require Import lib.Base lib.Utf8 lib.GoLib lib.F64 lib.Strconv gen.Unicode
   model.Json model.Ast model.Lexer model.Parser model.Printer model.PathAPI.
